@@ -55,3 +55,8 @@ import BacVerif.Props.C18
 #print axioms BacVerif.C18.eq_hash
 #print axioms BacVerif.C18.hash_eq
 #print axioms BacVerif.C18.eq_fields
+-- routes (wave 4)
+#print axioms BacVerif.C18.eqR_noroute
+#print axioms BacVerif.C18.eqR_trans_noroute
+#print axioms BacVerif.C18.eqR_hash
+#print axioms BacVerif.C18.eqR_not_transitive
